@@ -11,7 +11,7 @@
 (* the repairs listed in DESIGN.md, did have); the shipped configurations   *)
 (* set them to what the code does now, the anti-vacuity configurations flip *)
 (* one at a time and TLC must find the corresponding counterexample.        *)
-EXTENDS Naturals, Sequences, FiniteSets, TLC
+EXTENDS Naturals, Sequences, FiniteSets, TLC, TlsRule
 
 CONSTANTS Conns,            \* client connections (model values)
           MaxReq,           \* frames a client sends per connection
@@ -158,7 +158,7 @@ NothingToRead(c) == IF inq[c] = <<>> \/ (TLSMode # "none" /\ tls[c] = "plain") T
 \* blocked in the BER reader until a frame, EOF or (WakeOnCancel) the shutdown deadline
 \* TLS listener: the first read performs the handshake; what happens depends on what the client does
 NeedsHandshake(c) == TLSMode # "none" /\ tls[c] = "plain"
-HandshakeOK(c) == ckind[c] = "valid" \/ (TLSMode = "server" /\ ckind[c] \in {"nocert", "wrongca"})
+HandshakeOK(c) == HandshakeOKFor(TLSMode, ckind[c])
 \* a silent client, or one that will talk plaintext but has not sent anything yet, keeps the handshake waiting
 HandshakePending(c) == ckind[c] = "silent" \/ (ckind[c] = "plaintext" /\ inq[c] = <<>>)
 ConnHandshake(c) ==
